@@ -781,7 +781,7 @@ def run(ctx):
         ctx.obligation("translator:Gen.v", "translator", False, str(e))
         translated = False
     built = ctx.build()
-    n = 420 if not thorough else 4200
+    n = 420 if not thorough else 8000
     cases = []
     corpus = os.path.join(common.VERIF, "corpus", "C12")
     if os.path.isdir(corpus):
